@@ -24,7 +24,7 @@ RULE = (
 REQUIRED = ["canon_checked/wl", "canon_checked/nauty", "fixed_point_checked", "invariance_checked/nauty",
             "invariance_checked/wl", "standardize_checked", "validator_renumberings", "validator_transpositions",
             "validator_rejections_expected", "validator_acceptances_of_transpositions", "balance_true", "balance_false",
-            "reactions_with_ties_and_10plus_atoms", "h_species_balance_cases"]
+            "reactions_with_ties_and_10plus_atoms", "h_species_balance_cases", "shared_instance_checked", "validator_record_entry_points"]
 ASSUMPTIONS = [
     "numbering independence of CanonRSMI is only demanded when all reactant atoms are distinguishable for the back-end: "
     "nauty - trivial automorphism group of the reactant graph; wl - discrete 3-iteration WL colouring (recomputed in the harness)",
@@ -97,6 +97,9 @@ def transpose_product_maps(r, i, j):
     return a + ">>" + b2
 
 
+_shared = {}
+
+
 def check_canon(ctx, r, variants):
     from synkit.Chem.Reaction.canon_rsmi import CanonRSMI
 
@@ -123,6 +126,15 @@ def check_canon(ctx, r, variants):
         if rc_ is None or ref is None or not R.its_iso(ref, rc_):
             ctx.violation("canon-mapping", wit, "canonical reaction is not atom-map-equivalent to the input (reference ITS not isomorphic)")
             continue
+        # history: one long-lived canonicaliser instance (re-used for every reaction of this shard, and called twice
+        # on this one) must answer like a fresh instance
+        sh = _shared.setdefault(backend, CanonRSMI(backend=backend))
+        h1 = sh.canonicalise(r).canonical_rsmi
+        h2 = sh.canonicalise(r).canonical_rsmi
+        ctx.count("shared_instance_checked")
+        if h1 != c or h2 != c:
+            ctx.violation("canon-depends-on-history", {**wit, "shared_first": h1, "shared_second": h2},
+                          f"{backend}: a re-used CanonRSMI instance returns a different canonical reaction than a fresh one")
         c2 = CanonRSMI(backend=backend).canonicalise(c).canonical_rsmi
         ctx.count("fixed_point_checked")
         if c2 != c:
@@ -202,6 +214,14 @@ def check_validator(ctx, r, variants):
         for method in ("ITS", "RC"):
             exp = iso(gt, g) if method == "ITS" else iso(ref_rc(gt), grc)
             got = AAMValidator.smiles_check(t, r, check_method=method)
+            # the record-level entry points must give the same verdict
+            rec = {"m": t, "g": r}
+            got_pair = AAMValidator.check_pair(rec, "m", "g", method, False, True)
+            got_batch = AAMValidator.validate_smiles([rec], "g", ["m"], method, False, 1, 0, True)[0]["results"][0]
+            ctx.count("validator_record_entry_points")
+            if got_pair != exp or got_batch != exp:
+                ctx.violation("validator-entry-points", {"rsmi": r, "transposed": t, "swap": [i, j], "method": method},
+                              f"check_pair={got_pair}, validate_smiles={got_batch} for check_method={method}; reference isomorphism says {exp}")
             ctx.count("validator_transpositions")
             ctx.count("validator_rejections_expected" if not exp else "validator_acceptances_of_transpositions")
             if got != exp:
